@@ -119,7 +119,7 @@ class Decorator(object):
                 self.bknames.setdefault(val, k)
         self.stats = None
         self._find_stats()
-        self.bk = sorted([b for b in self.bknames if b[2] in ('deque', 'counter')], key=lambda b: b[1])
+        self.bk = sorted([b for b in self.bknames if b[2] in ('deque', 'counter', 'odict')], key=lambda b: b[1])
         self.any_tokens = sorted(set(['KeyError', 'TypeError', GENERIC, BASEONLY]) | handler_tokens(self.wrapper_node))
         self.model.any_tokens = self.any_tokens
         self.model.bknames = self.bknames
@@ -134,6 +134,7 @@ class Decorator(object):
         info = self.iface.get('info')
         self.stat_index = {}
         self.info_call = None
+        self.stats_shared = None
         if info is None or info[0][0] != 'closure':
             return
         node = self.closure_node(info[0])
@@ -156,6 +157,8 @@ class Decorator(object):
                 for a in v[2][:3]:
                     if a[0] == 'sub' and is_bk(a[1], 'list'):
                         self.stats = a[1]
+                    elif a[0] == 'sub' and contains_self(a[1]):
+                        self.stats_shared = a[1]      # counters live on the decorator object, not in the per-function closure
         if self.stats is not None:
             fields = cacheinfo_fields(self.repo)
             v = self.info_call
@@ -188,6 +191,16 @@ class Decorator(object):
         G = ('call', kg, (FN, IGNORE, ('star', ('proj', 0, Rr))), (('dstar', ('proj', 1, Rr)),))
         K = ('call', KEYMAP, (('star', ('proj', 0, G)),), (('dstar', ('proj', 1, G)),))
         return K
+
+
+def contains_self(t):
+    if t == SELF:
+        return True
+    if isinstance(t, tuple):
+        if t and t[0] in ('state', 'role'):
+            return True
+        return any(contains_self(x) for x in t if isinstance(x, tuple))
+    return False
 
 
 def cacheinfo_fields(repo):
